@@ -1183,6 +1183,17 @@ def fixed_cases():
         ("main-missing", "fn f() { }\n", True, "no main"),
         ("main-ok", "fn main() { }\n", False, "empty main"),
         ("empty-match", "fn main() { let y: int = match 1 { }; println(y); }\n", True, "match without arms has no value"),
+        # a function value with MORE parameters than the expected function type is not compatible
+        ("fntype-surplus-arg", 'fn two(a: int, b: str) -> int { a } fn apply(f: fn(a: int) -> int) -> int { f(1) }\nfn main() { println(apply(two)); }\n', True,
+         "function with a surplus parameter passed where a one-parameter function is expected"),
+        ("fntype-surplus-let", 'fn two(a: int, b: str) -> int { a }\nfn main() { let f: fn(a: int) -> int = two; println(f(1)); }\n', True,
+         "function with a surplus parameter bound to a one-parameter function type"),
+        ("fntype-surplus-list", 'fn two(a: int, b: str) -> int { a } fn one(a: int) -> int { a }\nfn main() { let fs: [fn(a: int) -> int] = [one, two]; println(fs.len()); }\n', True,
+         "surplus-parameter function inside a list of one-parameter functions"),
+        ("fntype-fewer", 'fn zero() -> int { 1 } fn apply(f: fn(a: int) -> int) -> int { f(1) }\nfn main() { println(apply(zero)); }\n', True,
+         "function with fewer parameters than expected"),
+        ("fntype-equal-ok", 'fn one(a: int) -> int { a + 1 } fn apply(f: fn(a: int) -> int) -> int { f(1) }\nfn main() { println(apply(one)); }\n', False,
+         "function of the expected type"),
         # a diverging FIRST arm must not fix the type of the match (later arms decide it)
         ("match-never-first", 'fn main() { let a = 1; let x = match a { 0 => throw("z"), 1 => 20, _ => "s" }; println(x); }\n', True,
          "arms of different types after a diverging first arm"),
